@@ -901,6 +901,15 @@ func runC07Multi(c *CaseCtx, r *rand.Rand, names []string) (res CaseResult) {
 		}
 		s.Target = FuncSpec{In: []Label{{Name: n, Type: U}}, InForm: 1 + r.Intn(2)}
 	}
+	extraTyped := mode != 2 && mode != 7 && r.Intn(3) == 0
+	if extraTyped {
+		// the target also has a type-only parameter of type T (any supplied T
+		// will do for it): resolving it must not decide which T the
+		// converter is fed for the NAMED parameter
+		s.Target.In = append(s.Target.In, Label{Type: T})
+		r.Shuffle(len(s.Target.In), func(a, b int) { s.Target.In[a], s.Target.In[b] = s.Target.In[b], s.Target.In[a] })
+		res.obs("cases_with_a_type_only_sibling_parameter", 1)
+	}
 	r.Shuffle(len(s.Inputs), func(a, b int) { s.Inputs[a], s.Inputs[b] = s.Inputs[b], s.Inputs[a] })
 	mainConv := -1
 	for i, cv := range s.Convs {
@@ -972,6 +981,9 @@ func runC07Multi(c *CaseCtx, r *rand.Rand, names []string) (res CaseResult) {
 				continue
 			}
 			for _, a := range e.Args {
+				if a.Param.Name == "" {
+					continue // the type-only sibling parameter
+				}
 				org := in.W.Origin(a.ID)
 				if org == nil || org.Kind != OConv || org.Func != mainConv {
 					res.violate("C07", "not-converted", fmt.Sprintf("parameter %v was not produced by the converter", a.Param), det)
@@ -994,6 +1006,9 @@ func runC07Multi(c *CaseCtx, r *rand.Rand, names []string) (res CaseResult) {
 					}
 					if mode == 7 {
 						key = "wrong-input-converted/several-named-outputs"
+					}
+					if extraTyped {
+						key += "/type-only-sibling-parameter"
 					}
 					res.violate("C07", key, fmt.Sprintf("parameter %v was converted from the input named %q instead of the input named %q", a.Param, got, a.Param.Name), det)
 				}
